@@ -377,13 +377,29 @@ func (self Reflect) childMap(v reflect.Value) node.Node {
 	return &Basic{
 		Peekable: v.Interface(),
 		OnChoose: func(state *node.Selection, choice *meta.Choice) (m *meta.ChoiceCase, err error) {
-			for _, c := range choice.Cases() {
+			// a case may hold its data in the cases of a nested choice
+			var hasData func(c *meta.ChoiceCase) bool
+			hasData = func(c *meta.ChoiceCase) bool {
 				for _, d := range c.DataDefinitions() {
+					if nested, isChoice := d.(*meta.Choice); isChoice {
+						for _, id := range nested.CaseIdents() {
+							if hasData(nested.Cases()[id]) {
+								return true
+							}
+						}
+						continue
+					}
 					mapKey := reflect.ValueOf(d.Ident())
 					mapVal := v.MapIndex(mapKey)
 					if mapVal.IsValid() {
-						return c, nil
+						return true
 					}
+				}
+				return false
+			}
+			for _, id := range choice.CaseIdents() {
+				if c := choice.Cases()[id]; hasData(c) {
+					return c, nil
 				}
 			}
 			return nil, nil
